@@ -143,13 +143,19 @@ func runC06Consume(c *core.Ctx) {
 }
 
 // sameBuffer: both values denote the same buffer object (same SSA value after stripping conversions, or share a root call/alloc).
-func sameBuffer(a, b ssa.Value) bool {
+func sameBuffer(a, b ssa.Value) bool { return sameBufferR(nil, a, b) }
+
+// sameBufferR: as sameBuffer, resolving helper boundaries of the given region (nil: the region of each value's function).
+func sameBufferR(rg *core.Region, a, b ssa.Value) bool {
 	a, b = core.Strip(a), core.Strip(b)
-	if a == b {
+	if a == b || core.SameValue(a, b) {
 		return true
 	}
-	ra := core.BackSlice(a, core.SliceOpts{Stores: true})
-	for w := range core.BackSlice(b, core.SliceOpts{Stores: true}) {
+	if rg != nil && rg.Canon(a) == rg.Canon(b) {
+		return true
+	}
+	ra := core.BackSlice(a, core.SliceOpts{Stores: true, Region: rg})
+	for w := range core.BackSlice(b, core.SliceOpts{Stores: true, Region: rg}) {
 		switch w.(type) {
 		case *ssa.Alloc, *ssa.Call:
 			if ra[w] {
